@@ -13,6 +13,7 @@ import (
 	"context"
 	"fmt"
 	"math/rand"
+	"os"
 	"sort"
 	"strconv"
 	"strings"
@@ -796,15 +797,19 @@ func main() {
 		plan = []string{"3dc", "late-dc-remote"}
 	} else {
 		all := []string{"3dc", "2dc", "1dc", "3dc-move", "2dc-move", "late-dc", "late-dc-remote", "late-3rd"}
-		n := r.Shards
-		if n < 1 {
-			n = 1
+		if r.Shards < 4 {
+			plan = all
+		} else {
+			// every topology is run by two shards (with different seeds)
+			plan = []string{all[r.Shard%len(all)], all[(r.Shard+3)%len(all)]}
 		}
-		for i := r.Shard; i < len(all)*2; i += n {
-			plan = append(plan, all[i%len(all)])
-		}
-		if len(plan) > 3 {
-			plan = plan[:3]
+	}
+	if only := os.Getenv("VERIF_C05_ONLY"); only != "" { // development aid: run a chosen list of topologies ("-" = none)
+		plan = nil
+		for _, n := range strings.Split(only, ",") {
+			if _, ok := topologies[n]; ok {
+				plan = append(plan, n)
+			}
 		}
 	}
 	for pi, name := range plan {
